@@ -279,14 +279,15 @@ def _root_.Yadism.Generated.Memo.Site.covered (s : Site) : Bool :=
 is part of the key or fixed for the lifetime of the object that owns the table -/
 theorem memo_keys_cover_deps : ∀ s ∈ sites, s.covered = true := by decide
 
-/-- the tables that exist, where, and under which key — a new table or a changed key shows up here -/
+/-- the tables that exist and where — a new table shows up here (the key expressions are not pinned:
+`memo_keys_cover_deps` is what constrains them, so renaming a local variable changes nothing) -/
 theorem memo_census :
-    sites.map (fun s => (s.fn, s.table, s.key)) =
-      [("yadism.coefficient_functions.heavy.n3lo.__init__.interpolator", "interpolators", "grid_name"),
-       ("yadism.esf.esf.EvaluatedStructureFunction.compute_local", "self._computed", "()"),
-       ("yadism.esf.scale_variations.ScaleVariations.compute_raw", "self.operators", "(l, nf)"),
-       ("yadism.runner.Runner.get_sf", "self.observables", "obs_name.name"),
-       ("yadism.sf.StructureFunction.get_esf", "self.cache", "key")] := by decide
+    sites.map (fun s => (s.fn, s.table)) =
+      [("yadism.coefficient_functions.heavy.n3lo.__init__.interpolator", "interpolators"),
+       ("yadism.esf.esf.EvaluatedStructureFunction.compute_local", "self._computed"),
+       ("yadism.esf.scale_variations.ScaleVariations.compute_raw", "self.operators"),
+       ("yadism.runner.Runner.get_sf", "self.observables"),
+       ("yadism.sf.StructureFunction.get_esf", "self.cache")] := by decide
 
 /-- what coverage buys, for any site and any semantics of its value: requests are environments
 (values of the names the function can read); all requests to one object agree on its immutable
